@@ -20,6 +20,8 @@ import PyhamModel.Lemmas.NavLemmas
 import PyhamModel.Lemmas.SessionLemmas
 import PyhamModel.Lemmas.TreeLemmas
 import PyhamModel.Lemmas.Faults
+import PyhamModel.Lemmas.Explicit
+import PyhamModel.Lemmas.RealisesLemmas
 namespace Pyham.Props
 open Pyham
 
@@ -41,6 +43,37 @@ theorem C01_members_per_family (env : Env) (es : List Elem) (tops : List Node) (
     tops.length = es.length ∧
       ∀ i (h1 : i < tops.length) (h2 : i < es.length), (tops[i]).leaves.Perm (refsOf es[i]) :=
   topElems_families env es {} tops ps h hog
+
+/-! ## C03 — levels and duplication events are reconstructed by the MRCA rule -/
+
+/-- fully explicit encodings: every family of the file is loaded, in order, and the loaded HOG
+    realises the simulated true history (one HOG per group at its taxon, children one level down, one
+    duplication record per duplication with exactly its copies as members) -/
+theorem C03_explicit (env : Env) (fams : List (Taxon × SL))
+    (hf : ∀ f ∈ fams, isGrp f.2 = true ∧ wfh env.T f.1 f.2 = true ∧ explicit f.2 = true ∧ Declared env f.1 f.2 ∧
+      (genesOf f.2).Nodup)
+    (hn : NamesInj env.T env.nm) :
+    ∃ tops ps, topElems env none (fams.flatMap fun f => encode env.T env.nm f.1 f.2) [] {} = .ok (tops, ps) ∧
+      tops.length = fams.length ∧
+      ∀ i (h1 : i < tops.length) (h2 : i < fams.length), Realises (fams[i]).1 (fams[i]).2 tops[i] :=
+  Pyham.C03_explicit env fams hf hn
+
+/-! ## C02 — the hierarchy is a forest aligned level-by-level with the species tree -/
+
+/-- whatever realises a well-formed history is well-formed: children exactly one level below their
+    parent all the way down, paralog discipline, genes at leaves and non-empty HOGs at internal nodes,
+    every duplication event attached at its level with at least two flagged children at one child taxon,
+    and the member genes are those of the history -/
+theorem C02_wf_of_realises (T : STree) (q : Taxon) (l : SL) (n : Node) (hw : wfh T q l = true)
+    (h : Realises q l n) :
+    n.tx = q ∧ n.aligned = true ∧ n.disciplined = true ∧ n.leaves.Perm (genesOf l) ∧
+    (∀ x ∈ n.nodes, (x.isGene = true → T.isLeafAt x.tx = true) ∧
+                    (x.isGene = false → T.isInternalAt x.tx = true ∧ x.kids ≠ [])) ∧
+    (∀ x ∈ n.hogs, ∀ r ∈ x.dups, r.mrca = x.tx ∧ 2 ≤ r.members.length ∧
+      (∀ m ∈ r.members, ∃ k ∈ x.kids, k.key = m ∧ k.dup = some r.did) ∧
+      (∃ i, ∀ m ∈ r.members, ∀ k ∈ x.kids, k.key = m → k.dup = some r.did → k.tx = i :: x.tx)) :=
+  ⟨realises_tx q l n h, realises_aligned q l n h, realises_disciplined T q l n hw h, realises_leaves q l n h,
+   realises_shape T q l n hw h, realises_events T q l n hw h⟩
 
 /-! ## C04 — genome gene lists are exact -/
 
